@@ -1,7 +1,7 @@
 #!/bin/bash
 # clean full build of the Coq development (all .vo), extraction, OCaml driver. Offline.
 cd "$(dirname "$0")"
-rm -f coq/Makefile coq/Makefile.conf coq/.*.aux coq/*/.*.aux ocaml/driver ocaml/model.ml ocaml/model.mli ocaml/*.cm* ocaml/*.o
+rm -f coq/.lia.cache coq/.nra.cache coq/*/.lia.cache coq/*/.nra.cache coq/Makefile coq/Makefile.conf coq/.*.aux coq/*/.*.aux ocaml/driver ocaml/model.ml ocaml/model.mli ocaml/*.cm* ocaml/*.o
 find coq -name "*.vo" -o -name "*.vok" -o -name "*.vos" -o -name "*.glob" | xargs rm -f
 tools/build.sh || exit 1
 /venv/bin/python -c "import json; json.load(open('known_findings.json')); json.load(open('MANIFEST.json'))" || exit 1
